@@ -14,6 +14,9 @@ work queue.
     punted    the sync logic defers the entry (`sync.punt()`), returns False
     requeue   nothing settled and no punt, returns False
     raised    an exception: `sync.punt()`, `self.backoff()` — the loop backs off (`Runnable.incr`)
+    stuck     an exception after which the entry is left as it was (no punt, not finished) while the loop backs off.
+              No handler of HEAD does this (Model/SchedSites.lean, Props/C17Sites.lean); the constructor exists so that
+              "every failure lowers the entry's rank or finishes it" is a hypothesis that can be stated — and violated.
   run():  success clears a backoff, nothing_happened keeps it, a backoff request increments it; then sleep
           `in_backoff` if positive, else `sleep`  — `Runnable.after` / `Runnable.sleepFor` of Model/Runnable.lean.
 
@@ -25,8 +28,16 @@ namespace CS.SchedLoop
 open CS.Sched
 
 inductive Work where
-  | finished | punted | requeue | raised
+  | finished | punted | requeue | raised | stuck
   deriving Repr, DecidableEq
+
+/-- the attempt got the entry out of the way: finished, or deferred by a punt -/
+def Work.progress : Work → Bool
+  | .finished => true
+  | .punted => true
+  | .raised => true
+  | .requeue => false
+  | .stuck => false
 
 structure Cfg where
   age   : Rat                 -- SyncManager.aging
@@ -56,12 +67,14 @@ def Work.outcome : Work → Runnable.Outcome
   | .punted => .noop
   | .requeue => .noop
   | .raised => .backoffReq
+  | .stuck => .backoffReq
 
 def Work.apply (p : Rat × Rat) (P : List Entry) (id : Nat) : Work → List Entry
   | .finished => dropIn P id
   | .punted => puntIn p P id
   | .requeue => P
   | .raised => puntIn p P id
+  | .stuck => P
 
 /-- one iteration; returns the next loop state and the entry attempted (if any) -/
 def iter (c : Cfg) (L : Loop) (w : Step) : Loop × Option Entry :=
@@ -87,5 +100,98 @@ def run (c : Cfg) : Loop → List Step → Loop × List Rec
     let (L1, a) := iter c L w
     let (L2, tr) := run c L1 ws
     (L2, { at_ := L.now, ent := a, work := w.work } :: tr)
+
+/-! ## the potential (how long an eligible entry can be kept waiting) -/
+
+/-- how many times `z` can still be attempted (and punted) before it is strictly less urgent than `y` -/
+def weight (y z : Entry) : Nat :=
+  if z.id = y.id then 0
+  else if z.priority ≤ y.priority then (Rat.floor (y.priority - z.priority)).toNat + 1 else 0
+
+def potential (y : Entry) (P : List Entry) : Nat := (P.map (weight y)).sum
+
+/-! ## a monitor for traces of the real engine
+
+One observation per call of `SyncManager.do`: the clock, the changeset right before and right after the call, the entry
+`state.change` handed out, and whether the call ended with the backoff request.  The monitor evaluates, with the very
+definitions the theorems are about (`change`, `eligible`, `potential`), what the loop theorems need of each step:
+the selection (`pick`), progress on failure (`stuck`; and `dropped`: no handler of HEAD finishes an entry whose
+attempt raised — Props/C17Punt.lean `audited_every_exception_punts`), and the rank of every waiting eligible entry (`rank`); and over a
+whole trace the no-starvation bound of `loop_no_starvation`, with arrivals (entries that enter the changeset or whose
+priority value drops between two calls) added to the budget. -/
+
+structure Obs where
+  earlier   : Rat            -- `now - age` as the implementation computed it
+  before    : List Entry
+  attempted : Option Nat
+  raised    : Bool
+  after     : List Entry
+
+inductive StepKind where
+  | idle | done | punt | keep
+  deriving Repr, DecidableEq
+
+def findId (P : List Entry) (id : Nat) : Option Entry := P.find? (·.id == id)
+
+def Obs.kind (o : Obs) : StepKind :=
+  match o.attempted with
+  | none => .idle
+  | some x =>
+    match findId o.before x, findId o.after x with
+    | some _, none => .done
+    | some b, some a => if a.priority > b.priority then .punt else .keep
+    | none, _ => .keep
+
+/-- per-step verdicts; `[]` = fine -/
+def Obs.check (o : Obs) : List String :=
+  let pick := (change o.before o.earlier 0).map (·.id)
+  let k := o.kind
+  (if pick != o.attempted then ["pick"] else []) ++
+  (if o.raised && k == .keep && o.attempted.isSome then ["stuck"] else []) ++
+  (if o.raised && k == .done then ["dropped"] else []) ++
+  (match o.attempted with
+   | none => []
+   | some x =>
+     -- entries the step itself created (a split) are arrivals, not a loss of rank
+     let afterOld := o.after.filter (fun z => (findId o.before z.id).isSome)
+     if (o.before.filter (fun y => y.id != x && eligible y o.earlier 0)).any (fun y =>
+          if k == .done || k == .punt then decide (potential y o.before ≤ potential y afterOld)
+          else decide (potential y o.before < potential y afterOld))
+     then ["rank"] else [])
+
+/-- weight that entered the queue between two calls, as seen from `y` -/
+def arrivals (y : Entry) (prevAfter nextBefore : List Entry) : Nat :=
+  (nextBefore.map (fun z =>
+    let old := match findId prevAfter z.id with
+      | some z' => weight y z'
+      | none => 0
+    weight y z - old)).sum
+
+/-- the wait of entry `y`: from the first observation in which it is pending and eligible to the first in which it is
+    attempted.  Returns (found eligible, attempted, busy iterations, bound). -/
+def waitOf (y : Nat) : List Obs → Bool × Bool × Nat × Nat
+  | [] => (false, false, 0, 0)
+  | o :: rest =>
+    match findId o.before y with
+    | some ye =>
+      if eligible ye o.earlier 0 then
+        -- walk from here
+        let rec go (ye : Entry) (prevAfter : Option (List Entry)) (busy bound : Nat) : List Obs → Bool × Nat × Nat
+          | [] => (false, busy, bound)
+          | o :: rest =>
+            let bound := match prevAfter with
+              | some pa => bound + arrivals ye pa o.before
+              | none => bound
+            if o.attempted == some y then (true, busy, bound)
+            else
+              let busy := if o.attempted.isSome then busy + 1 else busy
+              let bound := if o.kind == .keep && !o.raised then bound + 1 else bound     -- a plain requeue
+              -- entries created by the step itself (a split)
+              let bound := bound + ((o.after.filter (fun z => (findId o.before z.id).isNone)).map (weight ye)).sum
+              go ye (some o.after) busy bound rest
+        let r := go ye none 0 (potential ye o.before) (o :: rest)
+        (true, r.1, r.2.1, r.2.2)
+      else waitOf y rest
+    | none => waitOf y rest
 
 end CS.SchedLoop
